@@ -58,6 +58,10 @@ def obligations(tier, H):
             for ret in ("marker", "leaf"):
                 leaves = [("v", "int"), ("w", "int"), ("s", "str")]
                 add({"handled": handled, "pos": pos, "ret": ret}, leaves, "h_handler")
+    # a handler registered after the configuration has been used once
+    for handled in ("bean", "date", "tuple", "str", "int", "complex"):
+        for pos in ("beanattr", POSITIONS[0], POSITIONS[-1]):
+            add({"handled": handled, "pos": pos, "ret": "marker", "late": True}, [("v", "int"), ("w", "int"), ("s", "str")], "h_handler")
     for via in ("default", "config", "argument"):
         for pos in POSITIONS:
             for vt in ("int", "str"):
